@@ -547,6 +547,10 @@ func c16Handwritten(c *runner.Ctx, idx uint64) {
 		{"HSelf (embeds *HSelf)", HSelf{X: 1}, []probe{{"X", 1}, {"X + 1", 1}, {"HSelf", 1}, {"Y", 0}}, []string{"X", "HSelf"}},
 		{"*HSelf", &HSelf{HSelf: &HSelf{X: 2}, X: 1}, []probe{{"X", 1}, {"HSelf.X", 1}}, []string{"X", "HSelf"}},
 		{"map[string]func() int", map[string]func() int{"f": func() int { return 5 }}, []probe{{"f()", 1}, {"f() + 1", 1}}, []string{"f"}},
+		// an unexported struct embedded by value at the top level: its exported
+		// fields are promoted (Go and the VM resolve them), the struct itself is not a name
+		{"WithHidden (unexported struct embedded by value)", WithHidden{hidden: hidden{H: 4, Dup: 5}, V: 6}, []probe{{"H", 1}, {"V", 1}, {"Dup", 1}, {"H + V", 1}, {"hidden", 0}, {"Missing", 0}}, []string{"H", "V", "Dup"}},
+		{"*WithHidden", &WithHidden{hidden: hidden{H: 4, Dup: 5}, V: 6}, []probe{{"H", 1}, {"V", 1}, {"Dup + H", 1}, {"hidden", 0}}, []string{"H", "V", "Dup"}},
 		{"map[HKey]int (keys of a defined string type)", map[HKey]int{"a": 1}, []probe{{"a", -1}, {"a + 1", -1}}, []string{}},
 	}
 	for _, cs := range cases {
